@@ -100,6 +100,24 @@ Definition sub_placement (p : rp) (l : list loc) : bool :=
 Definition valid_placement (p : rp) (l : list loc) : bool :=
   sub_placement p l && Nat.eqb (length l) (copy_count p).
 
+(* an over-replicated volume "satisfies its replication setting" when copy_count of its
+   copies form a valid layout (the others are surplus) *)
+Fixpoint sublists_k {A} (k : nat) (l : list A) : list (list A) :=
+  match k, l with
+  | O, _ => [[]]
+  | S _, [] => []
+  | S k', x :: l' => map (cons x) (sublists_k k' l') ++ sublists_k k l'
+  end.
+Definition has_valid_subset (p : rp) (l : list loc) : bool :=
+  existsb (valid_placement p) (sublists_k (copy_count p) l).
+
+(* the holder list after a move, on locations (see [relocate] below) *)
+Fixpoint relocate_loc (from to : loc) (l : list loc) : list loc :=
+  match l with
+  | [] => []
+  | r :: l' => if loc_eqb r from then to :: l' else r :: relocate_loc from to l'
+  end.
+
 (* ---------- cluster snapshot (master_pb.TopologyInfo) ---------- *)
 Record vol := { v_id : N; v_coll : N; v_rp : N; v_size : N; v_ro : bool; v_dt : N;
                 v_mtime : N; v_crev : N }.
@@ -224,7 +242,9 @@ Definition prop_step (s : snapshot) (w : world) (st : step) : verdict4 :=
           let p := rp_of_byte (v_rp (r_info r)) in
           {| ok_coloc := negb (holds rs to);
              ok_cap := (w_occ w to (v_dt (r_info r)) <? max_of s to (v_dt (r_info r)))%Z;
-             ok_pres := true;
+             (* a satisfied volume stays satisfied (a copy onto a satisfied volume would
+                over-replicate it: repair must not touch it) *)
+             ok_pres := implb (valid_placement p (locs rs)) (valid_placement p (loc_of s to :: locs rs));
              (* the copy satisfies the replication setting: a set that could still be completed
                 to a valid layout can still be completed after the copy *)
              ok_repair := implb (sub_placement p (locs rs)) (sub_placement p (loc_of s to :: locs rs)) |}
@@ -233,9 +253,12 @@ Definition prop_step (s : snapshot) (w : world) (st : step) : verdict4 :=
       let rs := w_reps w vid in
       match replica_at rs at_, rs with
       | Some _, r0 :: _ =>
-          (* only surplus copies are purged *)
+          (* only surplus copies are purged, and if copy_count of the copies formed a valid
+             layout before the purge, copy_count of the remaining ones still do *)
+          let p := rp_of_byte (v_rp (r_info r0)) in
           {| ok_coloc := true; ok_cap := true; ok_repair := true;
-             ok_pres := copy_count (rp_of_byte (v_rp (r_info r0))) <=? length (remove_at at_ rs) |}
+             ok_pres := (copy_count p <=? length (remove_at at_ rs)) &&
+                        implb (has_valid_subset p (locs rs)) (has_valid_subset p (locs (remove_at at_ rs))) |}
       | _, _ => {| ok_coloc := false; ok_cap := false; ok_pres := false; ok_repair := false |}
       end
   end.
@@ -585,10 +608,12 @@ Definition fix_accepts (s : snapshot) (retry : nat) (evs : list fevent) : bool :
     is_perm_N overs (over_vids s) &&
     match over_vids s with
     | _ :: _ =>
-        (* fixOverReplicatedVolumes, dry-run: the first over-replicated volume only *)
-        match rest with
-        | [FDelete vid at_] => mem_N vid (over_vids s) && delete_ok (reps_of s vid) at_
-        | _ => false
+        (* fixOverReplicatedVolumes, dry-run: the first over-replicated volume only, in the
+           order of overReplicatedVolumeIds = the order the "over replicated" lines were printed *)
+        match overs, rest with
+        | v0 :: _, [FDelete vid at_] =>
+            (vid =? v0)%N && mem_N vid (over_vids s) && delete_ok (reps_of s vid) at_
+        | _, _ => false
         end
     | [] => fix_under_run s (fun _ _ => 0%Z) (under_vids s) rest
     end
@@ -657,3 +682,208 @@ Definition fix_steps (evs : list fevent) : list step :=
                      | FCopy vid from to => [Copy vid from to]
                      | FDelete vid at_ => [Delete vid at_]
                      | _ => [] end) evs.
+
+(* ====================================================================== *)
+(* PER-STEP triggers: a failing clause of ONE step is excused only by the trigger of *)
+(* THAT step (moved volume / target server), never by another volume of the snapshot *)
+(* ====================================================================== *)
+(* [excused clause trig]: every step either satisfies the clause or lies in the trigger set *)
+Fixpoint excused (clause : verdict4 -> bool) (trig : world -> step -> bool)
+  (s : snapshot) (w : world) (tr : list step) : bool :=
+  match tr with
+  | [] => true
+  | st :: tr' => (clause (prop_step s w st) || trig w st) && excused clause trig s (apply_step s w st) tr'
+  end.
+
+Definition all_steps (chk : world -> step -> bool) : snapshot -> world -> list step -> bool :=
+  excused (fun _ => false) chk.
+
+(* k=2 per step: the replication setting of the MOVED replica has x>=1 and y>=2 *)
+Definition step_rp_trig (w : world) (st : step) : bool :=
+  match st with
+  | Move vid _ from _ =>
+      match replica_at (w_reps w vid) from with
+      | Some r => rp_trig (rp_of_byte (v_rp (r_info r)))
+      | None => false
+      end
+  | _ => false
+  end.
+
+(* k=1 per step: the TARGET of this move cannot take all volumes of the moved volume's
+   disk type that the evacuated server holds *)
+Definition evac_cap_trig (s : snapshot) (this to dt : N) : bool :=
+  match find_node s this with
+  | None => false
+  | Some t => (max_of s to dt <? w_occ (init_world s) to dt + Z.of_nat (length (vols_of_dt t dt)))%Z
+  end.
+Definition step_evac_trig (s : snapshot) (this : N) (w : world) (st : step) : bool :=
+  match st with Move _ dt _ to => evac_cap_trig s this to dt | _ => false end.
+
+(* k=0 per step: the TARGET of this move holds so many unselected volumes (at the start
+   of the phase) that its ideal share does not fit *)
+Definition node_cap_trig (c : bctx) (dt : N) (st0 : bstate) (n : loc * Z) : bool :=
+  ((snd n - phase_unsel c dt st0 n) * bc_max_total c <? bc_sel_total c * snd n)%Z.
+Fixpoint balance_phase_cap_excused (s : snapshot) (c : bctx) (dt : N) (st0 st : bstate) (tr : list step)
+  : bool * (bstate * list step) :=
+  match tr with
+  | Move vid dt' from to :: tr' =>
+      if existsb (fun x => (v_id x =? vid)%N) (b_sel st from) then
+        let ok := ok_cap (prop_step s (b_w st) (Move vid dt' from to)) ||
+                  match find_cap c to with Some t => node_cap_trig c dt st0 t | None => false end in
+        let '(b, r) := balance_phase_cap_excused s c dt st0 (balance_advance s st vid dt' from to) tr' in
+        (ok && b, r)
+      else (true, (st, tr))
+  | _ => (true, (st, tr))
+  end.
+Fixpoint balance_cap_excused (limit : N) (s : snapshot) (phs : list phase) (w : world) (tr : list step) : bool :=
+  match phs with
+  | [] => true
+  | ph :: phs' =>
+      let c := mk_bctx limit s ph in
+      let st0 := {| b_sel := init_sel limit s ph; b_w := w |} in
+      let '(b, (st, tr')) := balance_phase_cap_excused s c (ph_dt ph) st0 st0 tr in
+      b && balance_cap_excused limit s phs' (b_w st) tr'
+  end.
+
+(* k=3  pickOneReplicaToDelete ranks by age only: the purged copy may be the one the layout
+   needs.  Per step: copy_count of the volume's copies form a valid layout, and some OLDEST
+   copy (a possible replicas[0]) is needed by every such subset *)
+Definition delete_pres_trig (rs : list replica) : bool :=
+  let p := head_rp rs in
+  has_valid_subset p (locs rs) &&
+  existsb (fun r => forallb (fun r' => negb (older (r_info r') (r_info r))) rs &&
+                    negb (has_valid_subset p (locs (remove_at (l_node (r_loc r)) rs)))) rs.
+Definition step_delete_trig (w : world) (st : step) : bool :=
+  match st with Delete vid _ => delete_pres_trig (w_reps w vid) | _ => false end.
+
+(* a purge never goes below the copy count (the part of the Delete clause that holds) *)
+Definition purge_count_ok (w : world) (st : step) : bool :=
+  match st with
+  | Delete vid at_ => copy_count (head_rp (w_reps w vid)) <=? length (remove_at at_ (w_reps w vid))
+  | _ => true
+  end.
+
+(* VolumeCount of every disk after a dry-run repair: the planned copies are counted *)
+Fixpoint fix_planned (s : snapshot) (planned : N -> N -> Z) (evs : list fevent) : N -> N -> Z :=
+  match evs with
+  | [] => planned
+  | FCopy vid _ to :: evs' =>
+      fix_planned s (match fix_src s vid with
+                     | Some src => upd2 planned to (v_dt (r_info src)) 1 | None => planned end) evs'
+  | _ :: evs' => fix_planned s planned evs'
+  end.
+Definition fix_final_count (s : snapshot) (evs : list fevent) (id dt : N) : option Z :=
+  match find_node s id with
+  | Some n => match disk_of n dt with
+              | Some d => Some (d_count d + fix_planned s (fun _ _ => 0%Z) evs id dt)%Z
+              | None => None end
+  | None => None
+  end.
+
+(* ====================================================================== *)
+(* volumeServer.evacuate, EC half (evacuateEcVolumes / moveAwayOneEcVolume, dry-run or  *)
+(* not: same plan).  EC shards are looked at on the hard-drive disk "" only (where     *)
+(* addEcVolumeShards / deleteEcVolumeShards keep their books); snapshots list an EC     *)
+(* volume at most once per server.                                                      *)
+(* ====================================================================== *)
+(* e_free = EcNode.freeEcSlot as collectEcVolumeServersByDc computes it;
+   e_vols = EcShardInfos: volume id, shard ids in ascending order (ShardBits.ShardIds) *)
+Record ecnode := { e_id : N; e_free : Z; e_vols : list (N * list N) }.
+Inductive ecevent :=
+| EcMove (vid shard to : N)   (* "moving ec volume <vid>.<shard> this => to" *)
+| EcStuck (vid : N)           (* "failed to move away ec volume <vid>" printed (-skipNonMoveable) *)
+| EcFail (vid : N).           (* the same as the returned error: the run stops *)
+
+Definition ec_entry (n : ecnode) (vid : N) : option (N * list N) :=
+  find (fun p => (fst p =? vid)%N) (e_vols n).
+(* localShardIdCount *)
+Definition ec_count (n : ecnode) (vid : N) : nat :=
+  match ec_entry n vid with Some p => length (snd p) | None => 0 end.
+Definition ec_has (n : ecnode) (vid sh : N) : bool :=
+  match ec_entry n vid with Some p => existsb (N.eqb sh) (snd p) | None => false end.
+Fixpoint ec_add_to (vs : list (N * list N)) (vid sh : N) : list (N * list N) :=
+  match vs with
+  | [] => [(vid, [sh])]
+  | p :: vs' => if (fst p =? vid)%N
+                then (vid, if existsb (N.eqb sh) (snd p) then snd p else snd p ++ [sh]) :: vs'
+                else p :: ec_add_to vs' vid sh
+  end.
+(* addEcVolumeShards with one shard id: freeEcSlot decreases by the number of NEW bits *)
+Definition ec_add (n : ecnode) (vid sh : N) : ecnode :=
+  {| e_id := e_id n;
+     e_free := if ec_has n vid sh then e_free n else (e_free n - 1)%Z;
+     e_vols := ec_add_to (e_vols n) vid sh |}.
+Definition ec_put (others : list ecnode) (to vid sh : N) : list ecnode :=
+  map (fun n => if (e_id n =? to)%N then ec_add n vid sh else n) others.
+Definition ec_find (others : list ecnode) (id : N) : option ecnode :=
+  find (fun n => (e_id n =? id)%N) others.
+
+(* one shard: otherNodes sorted by localShardIdCount ascending (sort.Slice), the first one gets
+   the shard.  No free-slot test, no look at racks. *)
+Definition ec_target_ok (others : list ecnode) (vid to : N) : bool :=
+  match ec_find others to with
+  | Some t => forallb (fun n => ec_count t vid <=? ec_count n vid) others
+  | None => false
+  end.
+
+Fixpoint ec_shards_run (others : list ecnode) (vid : N) (shs : list N) (evs : list ecevent)
+  : option (list ecnode * list ecevent) :=
+  match shs with
+  | [] => Some (others, evs)
+  | sh :: shs' =>
+      match evs with
+      | EcMove v s to :: evs' =>
+          if (v =? vid)%N && (s =? sh)%N && ec_target_ok others vid to
+          then ec_shards_run (ec_put others to vid sh) vid shs' evs' else None
+      | _ => None
+      end
+  end.
+
+Fixpoint ec_evac_run (others : list ecnode) (skip : bool) (vols : list (N * list N)) (evs : list ecevent)
+  : bool :=
+  match vols with
+  | [] => match evs with [] => true | _ => false end
+  | (vid, shs) :: vols' =>
+      match others, shs with
+      | _ :: _, _ :: _ =>
+          match ec_shards_run others vid shs evs with
+          | Some (o', evs') => ec_evac_run o' skip vols' evs'
+          | None => false
+          end
+      | _, _ =>
+          (* no other server, or an entry without shards: hasMoved stays false *)
+          match evs with
+          | EcStuck v :: evs' => skip && (v =? vid)%N && ec_evac_run others skip vols' evs'
+          | [EcFail v] => negb skip && (v =? vid)%N
+          | _ => false
+          end
+      end
+  end.
+
+Definition ec_evac_accepts (es : list ecnode) (this : N) (skip : bool) (evs : list ecevent) : bool :=
+  match ec_find es this with
+  | None => false (* "not found in this cluster" *)
+  | Some t => ec_evac_run (filter (fun n => negb (e_id n =? this)%N) es) skip (e_vols t) evs
+  end.
+
+(* the capacity clause for EC shards, per step, on the (bookkept = real) free EC slots *)
+Fixpoint ec_cap_steps (trig : N -> bool) (others : list ecnode) (evs : list ecevent) : bool :=
+  match evs with
+  | [] => true
+  | EcMove vid sh to :: evs' =>
+      (match ec_find others to with Some t => (0 <? e_free t)%Z | None => false end || trig to) &&
+      ec_cap_steps trig (ec_put others to vid sh) evs'
+  | _ :: evs' => ec_cap_steps trig others evs'
+  end.
+Definition ec_ok_cap := ec_cap_steps (fun _ => false).
+(* k=4  moveAwayOneEcVolume never tests freeEcSlot.  Per step: THIS target cannot take all shards
+   the evacuated server holds *)
+Definition ec_total (vols : list (N * list N)) : Z :=
+  fold_right (fun p a => (Z.of_nat (length (snd p)) + a)%Z) 0%Z vols.
+Definition ec_cap_trig (es : list ecnode) (this to : N) : bool :=
+  match ec_find es this, ec_find es to with
+  | Some t, Some n => (e_free n <? ec_total (e_vols t))%Z
+  | _, _ => false
+  end.
+Definition ec_others (es : list ecnode) (this : N) : list ecnode :=
+  filter (fun n => negb (e_id n =? this)%N) es.
